@@ -1,4 +1,51 @@
-(* C05 - a failing callable surfaces faithfully and leaves no residue. *)
-From Fiddle Require Import PyBase PySlice Sig ArgStore PyCall Heap Traverse Build Anchors.
+(* C05 - a failing callable surfaces faithfully and leaves no residue.
+   Model: Build.build with a failure oracle `fails` and the in-build flag.  Statements only;
+   proofs are in theories/Traverse_proofs.v and theories/Build_proofs.v. *)
+From Fiddle Require Import PyBase PySlice Sig ArgStore PyCall Heap Traverse Build Build_stmt
+  Traverse_proofs Build_proofs Anchors.
 
-Example C05_placeholder : True. Proof. exact I. Qed.
+(* (hypotheses: dict / named-tuple keys are distinct, as in Python; the raising node is a Config,
+   not an unfilled TaggedValue, whose own error is not governed by the failure oracle)
+   No callable runs after the failing one: when the callable of Buildable k raises, the log holds
+   exactly what completed before; k is reachable and not in the log, everything k depends on is
+   done, and no logged Config was one the oracle makes fail. *)
+Theorem C05_failure_prefix : forall e fails h r s res,
+  wf_b e h = true -> root_ok h r -> mrun e h (build_node e fails) r = (s, res) ->
+  keys_ok h -> (forall k x, res = inr (FRaise k x) -> ~ is_tagged h k) ->
+  failure_prefix_stmt e fails h r s res.
+Proof. exact failure_prefix_partial_untagged. Qed.
+Print Assumptions C05_failure_prefix.
+
+(* The configuration is unmodified, on success and on every failure. *)
+Theorem C05_pure : forall e fails h r s res,
+  wf_b e h = true -> root_ok h r ->
+  mrun e h (build_node e fails) r = (s, res) -> pure_stmt h s.
+Proof. exact pure_holds. Qed.
+Print Assumptions C05_pure.
+
+(* The in-build flag: a build started with the flag clear leaves it clear whatever happens; a build
+   attempted while the flag is set is rejected, runs nothing and leaves the flag set. *)
+Theorem C05_flag_reset : forall e fails h r,
+  fst (build e fails false h r) = false.
+Proof. intros; reflexivity. Qed.
+Print Assumptions C05_flag_reset.
+
+Theorem C05_nested_rejected : forall e fails h r,
+  build e fails true h r = (true, (mk_ms [] h [], inr FNested)).
+Proof. intros; reflexivity. Qed.
+Print Assumptions C05_nested_rejected.
+
+(* Repeated failures in sequence: every build of a sequence starts from a clear flag and the
+   unmodified input, so each behaves as if it were run first. *)
+Theorem C05_next_build : forall e h (runs : list ((nat -> option N) * ref)),
+  wf_b e h = true ->
+  Forall (fun fr => root_ok h (snd fr)) runs ->
+  Forall (fun fr => let '(flag, (s, _)) := build e (fst fr) false h (snd fr) in
+                    flag = false /\ firstn (length h) (out s) = h) runs.
+Proof.
+  intros e h runs Hwf Hroots. rewrite Forall_forall in *. intros [fl r] Hin.
+  specialize (Hroots _ Hin). cbn [fst snd] in *. unfold build.
+  destruct (mrun e h (build_node e fl) r) as [s res] eqn:Hrun.
+  split; [reflexivity|]. exact (proj1 (pure_holds e fl h r s res Hwf Hroots Hrun)).
+Qed.
+Print Assumptions C05_next_build.
